@@ -37,6 +37,8 @@ type Obligation struct {
 	Pos        string
 	ShortLimit bool
 	errText    string
+	static     bool   // decided by the sweep, not by a solver
+	staticFail string // non-empty: what the sweep found
 }
 
 // VC holds the verification conditions of one function.
@@ -91,6 +93,7 @@ type VC struct {
 	allocBound       map[*ssa.Alloc]string
 	relSpecs         map[string]bool
 	warnings         []string
+	missing          []missingClause
 	pendingGhostInit bool
 	ghostT           map[string]*GT
 	ghostScalar      map[string]types.Type
@@ -617,6 +620,31 @@ func (vc *VC) findLoops() {
 			li.clauses = vc.fc.Loops[i]
 		}
 	}
+	if vc.fc != nil {
+		for n, cs := range vc.fc.Loops {
+			if n >= len(vc.loopList) {
+				for _, c := range cs {
+					if c.Kind != "invariant" {
+						continue
+					}
+					lbl := c.Label
+					if lbl == "" {
+						lbl = "inv"
+					}
+					vc.missing = append(vc.missing, missingClause{Name: fmt.Sprintf("inv-init:%s@loop%d", lbl, n), Props: c.Props, Why: fmt.Sprintf("the contract annotates loop %d but the function has only %d loops", n, len(vc.loopList)), C: c})
+				}
+			}
+		}
+	}
+}
+
+// missingClause is a contract clause whose program point no longer exists in
+// the code; it is reported as an undischarged obligation.
+type missingClause struct {
+	Name  string
+	Props []string
+	Why   string
+	C     *Clause
 }
 
 func (vc *VC) isBackEdge(p, b *ssa.BasicBlock) bool {
@@ -1111,6 +1139,13 @@ func (vc *VC) footprint(comp, av string) (string, bool) {
 	env := vc.contractEnv(nil)
 	for _, mc := range vc.fc.Modifies {
 		for _, mi := range mc.Mods {
+			if mi.MapOf != nil {
+				mv := vc.evalVal(mi.MapOf, env, vc.entry, vc.entry)
+				if isMapComp(comp, mv.T) {
+					parts = append(parts, eq(av, mv.S))
+				}
+				continue
+			}
 			if mi.Elems != nil {
 				sv := vc.evalVal(mi.Elems, env, vc.entry, vc.entry)
 				if sv.K != KSlice {
@@ -2014,6 +2049,10 @@ func (vc *VC) execMakeInterface(x *ssa.MakeInterface, st *State) {
 		vc.declareRaw("fun:iface_ptr", "(declare-fun iface_ptr (Int) Addr)")
 		vc.local(eq(sx("iface_ptr", r.S), v.S))
 	}
+	if v.K == KInt {
+		vc.declareRaw("fun:iface_int", "(declare-fun iface_int (Int) Int)")
+		vc.local(eq(sx("iface_int", r.S), v.S))
+	}
 	if v.K == KStr {
 		vc.declareRaw("fun:iface_str", "(declare-fun iface_str (Int) Str)")
 		vc.local(eq(sx("iface_str", r.S), v.S))
@@ -2275,4 +2314,12 @@ func (ob *Obligation) deadBlocks() map[int]bool {
 	vc.deadCache[key] = dead
 	vc.deadMu.Unlock()
 	return dead
+}
+
+// isMapComp tells whether comp is one of the heap components of maps of type t.
+func isMapComp(comp string, t types.Type) bool {
+	if _, ok := t.Underlying().(*types.Map); !ok {
+		return false
+	}
+	return comp == mapDomComp(t) || comp == mapLenComp(t) || comp == mapValComp(t) || strings.HasPrefix(comp, strings.TrimSuffix(mapValComp(t), "|")+"#")
 }
